@@ -218,13 +218,29 @@ var c16ArgLists = []string{"", "$.p", "$.p, $.q", "$.p, $.q, $.p"}
 // every kind returns a value or a runtime error — never a crash (the no-panic
 // obligation is carried by every instruction).
 func VHC16Robust() {
-	rk := vh.Choose("recv", nDocKinds)
-	r, _ := mkOperand("r", rk, 1)
-	pk := vh.Choose("pk", nDocKinds)
-	p, _ := mkOperand("p", pk, 1)
-	q, _ := mkOperand("q", vh.Choose("qk", 3), 1)
-	doc := map[string]any{"r": r, "p": p, "q": q}
+	// kinds are what matters here; strings are concrete (empty / ASCII / multi-byte), so
+	// that the many method x kind combinations stay cheap
+	mk := func(name string, kind int) any {
+		if kind == kStr {
+			return []string{"", "a1", "\u00e9"}[vh.Choose(name+"_str", 3)]
+		}
+		if kind == kNum {
+			return []float64{0, 2.5, -1e300}[vh.Choose(name+"_num", 3)]
+		}
+		v, _ := mkOperand(name, kind, 1)
+		return v
+	}
 	args := c16ArgLists[vh.Choose("nargs", len(c16ArgLists))]
+	rk := vh.Choose("recv", nDocKinds)
+	r := mk("r", rk)
+	pk := 0
+	var p, q any = 1.0, 1.0
+	if args != "" { // argument kinds only vary when there are arguments
+		pk = vh.Choose("pk", nDocKinds)
+		p = mk("p", pk)
+		q = mk("q", (rk+pk)%3) // the second argument's kind varies with the others instead of multiplying them
+	}
+	doc := map[string]any{"r": r, "p": p, "q": q}
 	var src string
 	if vh.Choose("what", 2) == 0 {
 		src = "$.r." + c16Methods[vh.Choose("m", len(c16Methods))] + "(" + args + ")"
